@@ -190,6 +190,18 @@ class Resolver:
                         t = self.cm_as_type(func, it.context_expr)
                         if t is not None:
                             types.setdefault(it.optional_vars.id, t)
+            elif isinstance(n, (ast.For, ast.AsyncFor)) and isinstance(n.target, ast.Name) and isinstance(n.iter, ast.Name):
+                # element type from the iterable parameter's annotation: Sequence[Signal[T]] -> Signal
+                ann = func.param_annotation(n.iter.id) if not func.is_lambda and n.iter.id in func.params else None
+                if isinstance(ann, ast.Constant) and isinstance(ann.value, str):
+                    try:
+                        ann = ast.parse(ann.value, mode="eval").body
+                    except SyntaxError:
+                        ann = None
+                if isinstance(ann, ast.Subscript) and (dotted(ann.value) or "").split(".")[-1] in ("Sequence", "list", "List", "Iterable", "Collection", "Iterator", "set", "Set", "frozenset", "MutableSequence"):
+                    t = self.ann_to_type(func.module, ann.slice)
+                    if t is not None:
+                        types.setdefault(n.target.id, t)
         return types
 
     def lookup_name_type(self, func: FuncInfo, name: str) -> object:
